@@ -10,6 +10,7 @@ require (
 	github.com/ethereum/go-ethereum v1.14.13
 	github.com/prometheus/client_golang v1.20.5
 	golang.org/x/net v0.38.0
+	google.golang.org/protobuf v1.36.2
 )
 
 require (
@@ -29,7 +30,6 @@ require (
 	go.opentelemetry.io/otel/trace v1.33.0 // indirect
 	golang.org/x/crypto v0.36.0 // indirect
 	golang.org/x/sys v0.31.0 // indirect
-	google.golang.org/protobuf v1.36.2 // indirect
 )
 
 replace github.com/aukilabs/hagall => /repo
